@@ -75,7 +75,10 @@ pub fn run(ctx: &Ctx, id: &str, only: Option<&str>) -> Vec<Value> {
             // every lane bounds its own work; a lane that is still running long after that (a library that
             // spins inside one call, say) is left behind on its thread so that the remaining lanes - one of
             // which may well name the reason - still run and the report still gets written
-            let cap = if ctx.quick() { 150 } else { ctx.lane_cap_s.unwrap_or(600) * 2 + 300 };
+            // (lanes on real sockets and real threads legitimately sit out wall-clock guards - 8 s, then 40 s alone, per
+            // hanging scenario - when the library under test hangs; the in-memory lanes never wait for real time)
+            let real_time = matches!(name, "routing_threads" | "starttls_strays" | "starttls_results" | "real_transports" | "threads" | "sync_streams" | "stack" | "starttls_garbage" | "tls_connections" | "differential" | "matrix" | "table");
+            let cap = if ctx.quick() { if real_time { 900 } else { 150 } } else { ctx.lane_cap_s.unwrap_or(600) * 2 + if real_time { 900 } else { 300 } };
             let (txr, rxr) = std::sync::mpsc::channel();
             let c2 = ctx.clone();
             let _ = std::thread::Builder::new().stack_size(32 << 20).spawn(move || {
